@@ -228,3 +228,27 @@ PROPS["C20"] = dict(
     assumptions=[],
     unproved=["sender: 'figure = highest offset transmitted so far' as a whole-history equation (proved per file-data transmission; the history version is checked by the send engine oracle send_progress)"],
 )
+
+PROPS["C04"] = dict(
+    title="A completed delivery is final: late or duplicate PDUs cannot undo or redo it",
+    module="Cfdp.Props.C04",
+    namespace="Cfdp.Loop",
+    theorems=["C04_final", "C04_late", "Cfdp.Send.C04_sender"],
+    engines=["recv", "send"],
+    design="§6 C04",
+    technique="Lean 4 invariant proofs over all event histories of the receiver and sender models + differential correspondence",
+    level_text=("Kernel-checked: once the receiver model has left ReceiveData (delivery reported, or cancelled) no history of loop events of any length - PDUs of "
+                "any kind, timer wake-ups at any times, transmissions, cancel/suspend/resume/report - changes the filestore or the recorded filestore responses, and "
+                "the phase never returns to ReceiveData (C04_final: so the delivered file is not rewritten and no filestore request runs twice); a late or duplicate "
+                "file-data / NoError-EOF / metadata / prompt PDU reaching a Finished receiver raises only the 'PDU received' indications - no Finished indication, no "
+                "fault of any kind, in particular no FileChecksumFailure / FilesizeError - and leaves delivery code, file status and the content of the Finished PDU "
+                "unchanged (C04_late); a sender that is never handed a Finished PDU with delivery code Complete never reports a complete delivery to its user, over "
+                "every history (C04_sender). Tie to the code: recv/send engines; oracle clauses finished_again / integrity_fault_after_success / fs_changed_after_success "
+                "on the real RecvTransaction with duplicates and stragglers injected after completion."),
+    level_note=RECV_SEND_NOTE + " The daemon's re-spawning of a receive transaction for a PDU that arrives after the transaction ended (lib.rs) is outside these models: see C11.",
+    rule=("recv engine: seeded histories over both modes, closure on/off, immediate/deferred NAK, 0..6 segment files, filestore requests (append: non-idempotent); "
+          "after the first Finished indication the script re-delivers 1-2 earlier PDUs (data, EOF, metadata, prompt) and lets ACK(Finished) get lost. "
+          "send engine: Finished PDUs with every delivery code / condition. Non-trivial = a PDU was emitted or an indication raised."),
+    assumptions=["C04_late: the late EOF's file size is not below the end of the data held (true of any retransmission of the original EOF)"],
+    unproved=["the daemon-level part (a PDU for an already ended transaction spawning a fresh receive transaction) is C11"],
+)
